@@ -268,6 +268,11 @@ def run(tier, chk):
                         'flags, registers and memory the SDM leaves undefined are not compared; #DE states are skipped',
                         'memory is IR.tla InitByte(seed) with pool values at the operand / stack / string addresses']
     report(chk, recs, verdicts)
+    # evidence for the trusted side: X86Sem!Step against the host processor (register / immediate forms)
+    from . import x86calib
+    x86calib.calibrate(chk, 4 if quick else 16, 7)
+    chk.assumptions.append('X86Sem.tla is calibrated against the host CPU on register/immediate forms only; memory, stack, string and '
+                           'control-transfer semantics rest on the transcription of the SDM')
 
 
 # ----------------------------------------------------------------------------------------------
